@@ -250,3 +250,24 @@ CHECKS["C09"] = dict(
               "carrier:buffer", "carrier:breader", "carrier:reader"],
     assumptions=_E1_ASSUME,
 )
+
+CHECKS["C03"] = dict(
+    test="TestC03", level="exploration",
+    quick=dict(shards=8, checks=15000, timeout=300),
+    thorough=dict(shards=16, checks=600000, timeout=3000, shrinktime="120s"),
+    rule="rapid-generated build programs of 0-10 AddFirst/AddLast/AddHandler operations (every legal position -1..size-1, 1-3 handlers per "
+         "call, repeated instances; illegal positions and handlers without any interface as negative cases that must panic and leave the "
+         "pipeline unchanged) over a pool of 1-6 handlers whose Go types implement an arbitrary subset of the six handler interfaces (64 "
+         "generated types, genuine method sets) with a forward/stop choice per event kind and ctx.Write/ctx.Trigger actions; then the "
+         "channel is served (activation by the real read loop) and 1-8 events are injected through every entry point: pipeline Fire* "
+         "(read, write, event, exception), Channel.Write, Channel.Trigger, the read loop (a byte fed to the transport), ctx.Write/"
+         "ctx.Trigger on ContextAt(pos). Oracle: an independent slice model: Size/IndexOf/LastIndexOf/ContextAt after every build step "
+         "(identity, implements-X and always-false predicates, both directions), and for every event the real trace (handler, kind, "
+         "payload, context identity == ContextAt(model position), wire writes, transport close) equals the model's. "
+         "Non-trivial = >=3 user handlers, a middle insertion on a list >=3, and both an inbound and an outbound event visiting >=2 handlers.",
+    required=["middle-insertion", "multi-handler-call", "repeated-instance", "build-refused", "subset-size:1", "subset-size:2", "subset-size:3",
+              "subset-size:4", "subset-size:5", "subset-size:6", "entry:fire", "entry:chwrite", "entry:chtrigger", "entry:readloop",
+              "entry:ctxwrite", "entry:ctxtrigger", "fire:read", "fire:write", "fire:event", "fire:exception", "closed-by-unhandled-exception"],
+    assumptions=["AddFirst(a, b) adds one at a time, so the result is [b, a, ...]: the model encodes the order these operations define on this codebase",
+                 "actions nest at most three levels deep on both sides"],
+)
